@@ -45,7 +45,7 @@ import XotModel.Lemmas.FfixedRepresentable
 import XotModel.Lemmas.FparseRoute
 import XotModel.Model.FparseRouteSpec
 import XotModel.Lemmas.Fprog2Conv
-import XotModel.Lemmas.Fprog3Main
+import XotModel.Lemmas.Fprog3Conv
 
 namespace XotModel.Props
 open XotModel
@@ -1013,6 +1013,31 @@ theorem C20_program3_no_refusal (s s' : Prog.State) (P : Prog3.Program) (inv : s
     Prog3.firstRefused s P = none ∧ Prog3.firstIllFormed s P = none :=
   Prog3.firstRefused_none P s s' inv hfl h
 
+/-- **Conversely**: a program with navigation every step of which the implementation answers `ok` — in
+    particular every navigation found a node — is accepted by the specification, with the same final state
+    (then `C20_program3_refines` / `C20_any_program3` apply).  `Prog3.inScope`: what `Prog2.inScope` excludes,
+    and a `clear()` for which the specification's liveness test of the collected entry nodes fails. -/
+theorem C20_any_program3_conv (s : Prog.State) (P : Prog3.Program) (inv : s.forest.Inv)
+    (hfl : Prog.FlagsOk s.forest) (hsc : Prog3.inScope s P = true) (hok : (Prog3.runImpl s P).2 = .ok) :
+    Prog3.runSpec s P = some (Prog3.runImpl s P).1 :=
+  Prog3.run_impl_spec P s inv hfl hsc hok
+
+/-- … so an `ok` run HAS a denotation, and it is what the model's final store shows. -/
+theorem C20_program3_ok_denotes (f : Forest) (ins : List Nat) (P : Prog3.Program) (inv : f.Inv)
+    (hfl : Prog.FlagsOk f) (hsc : Prog3.inScope { forest := f, env := ins } P = true)
+    (hok : (Prog3.runImpl { forest := f, env := ins } P).2 = .ok) :
+    Prog3.denote f ins P = some (Prog3.rootTrees (Prog3.runImpl { forest := f, env := ins } P).1) := by
+  unfold Prog3.denote
+  rw [C20_any_program3_conv _ P inv hfl hsc hok]
+  rfl
+
+/-- **Refusals are exact** for programs with navigation: the first step the implementation does not answer
+    `ok` — a failed navigation included — is the first step the specification calls ill-formed. -/
+theorem C20_program3_refusal_exact (s : Prog.State) (P : Prog3.Program) (inv : s.forest.Inv)
+    (hfl : Prog.FlagsOk s.forest) (hsc : Prog3.inScope s P = true) :
+    Prog3.firstRefused s P = Prog3.firstIllFormed s P :=
+  Prog3.firstRefused_eq P s inv hfl hsc
+
 /-- The extension is conservative: an extended program (`Prog2`) runs identically as a `Prog3` program … -/
 theorem C20_program3_old (s : Prog.State) (P : Prog2.Program) :
     Prog3.runSpec s (Prog3.ofOld P) = Prog2.runSpec s P ∧ Prog3.runImpl s (Prog3.ofOld P) = Prog2.runImpl s P :=
@@ -1117,7 +1142,8 @@ example :
             some (treeOf docC), none, some (treeOf docC), some (treeOf docC), none, none, some (treeOf docC),
             none, some (treeOf docC), some (treeOf docC)] ∧
     (Prog3.runImpl { forest := storeN, env := [0, 9] } progN).2 = .ok ∧
-    Prog3.firstRefused { forest := storeN, env := [0, 9] } progN = none := by
+    Prog3.firstRefused { forest := storeN, env := [0, 9] } progN = none ∧
+    Prog3.inScope { forest := storeN, env := [0, 9] } progN = true := by
   decide +kernel
 
 /-- Ill-formed programs are refused where the specification rejects them: a navigation that finds nothing
